@@ -204,11 +204,23 @@ def _parse_tlc_line(res, line):
         res.coverage[m.group(1)] = [int(m.group(3)), int(m.group(4))]
 
 
+def _throttle():
+    """Optional machine-wide throttle while many people share the box: /verif/.build/throttle.json
+    {"workers": n, "nproc": m}. Absent (the normal case) = no limit."""
+    try:
+        return json.load(open(os.path.join(ROOT, ".build", "throttle.json")))
+    except Exception:
+        return {}
+
+
 def tlc(module, cfg, workers=8, simulate=None, depth=None, extra=(), env=None, timeout=1800,
         on_json=None, on_chunk=None, heap="8g", coverage=False, tlc_seed=None, deadlock=True, tool_opts=None):
     """Run TLC on spec/<module>.tla with spec/<cfg>. Lines that are TLA+ strings holding JSON
     (emitted by PrintT(ToJson(..))) are passed, still encoded, to on_json(line)."""
     res = TlcResult()
+    th = _throttle()
+    if th.get("workers") and workers > 1:
+        workers = max(1, min(workers, int(th["workers"])))
     os.makedirs(os.path.join(BUILD, "tlc"), exist_ok=True)
     meta = tempfile.mkdtemp(prefix=module + ".", dir=os.path.join(BUILD, "tlc"))
     cmd = ["java", "-XX:+UseParallelGC", "-Xmx" + heap]
@@ -331,6 +343,9 @@ class Piper:
         e = dict(os.environ)
         if env:
             e.update(env)
+        th = _throttle()
+        if th.get("nproc"):
+            nproc = min(nproc, int(th["nproc"]))
         self.ps = [subprocess.Popen(cmd, stdin=subprocess.PIPE, stdout=subprocess.PIPE, stderr=subprocess.PIPE,
                                     env=e, bufsize=0) for _ in range(max(1, nproc))]
         self.out = []
